@@ -297,7 +297,7 @@ def chunk_model_cells(pq, data, lf, tbl):
     return out, None
 
 
-def run_case(lf, table, scratch, cats=False, kv=False):
+def run_case(lf, table, scratch, cats=False, kv=False, light=False, pf_kwargs=None):
     """encode with the spec encoder, read with fastparquet -> dict(outcome, problems, ...)"""
     from harness import fmtlib
     pq = _pq()
@@ -313,17 +313,22 @@ def run_case(lf, table, scratch, cats=False, kv=False):
             res["spec"] = "spec decoder disagrees with the generator's table"
     elif not features(lf)["raw"]:
         res["spec"] = "spec decoder: %s %s" % (d[0], d[1])
-    v = fm.validate(data, True, tbl)
-    res["valid"] = v[0] + ((": " + v[1]) if len(v) > 1 else "")
+    if light:
+        res["valid"] = "skipped (big pages)"
+    else:
+        v = fm.validate(data, True, tbl)
+        res["valid"] = v[0] + ((": " + v[1]) if len(v) > 1 else "")
     res["model_bad"], res["model_pages"] = [], 0
-    if not features(lf)["raw"]:
+    if light:
+        res["chunk_model"] = None
+    elif not features(lf)["raw"]:
         try:
             res["model_bad"], res["model_pages"] = model_vs_reader(pq, data, lf)
         except Exception as e:    # noqa
             import traceback
             res["model_bad"] = [({"harness": "model_vs_reader"}, "exception", traceback.format_exc()[-600:])]
     res["chunk_model"] = None
-    if not features(lf)["raw"]:
+    if not light and not features(lf)["raw"]:
         try:
             res["chunk_model"] = chunk_model_cells(pq, data, lf, tbl)
         except Exception as e:    # noqa
@@ -334,9 +339,9 @@ def run_case(lf, table, scratch, cats=False, kv=False):
     import fastparquet
     try:
         if cats:
-            df = fastparquet.ParquetFile(fn).to_pandas(categories=[l["name"] for l in lf["leaves"]])
+            df = fastparquet.ParquetFile(fn, **(pf_kwargs or {})).to_pandas(categories=[l["name"] for l in lf["leaves"]])
         else:
-            df = fastparquet.ParquetFile(fn).to_pandas()
+            df = fastparquet.ParquetFile(fn, **(pf_kwargs or {})).to_pandas()
     except Exception as e:   # noqa
         import traceback
         res["outcome"] = "raised"
@@ -467,6 +472,64 @@ def alloc_tie(ctx, obs):
                            "timestamp column the real reader returns", {"recorded": o[0], "stored": o[1], "value": o[2]}, model, [o[3], o[4]])
 
 
+VIEW_MODULES = ["compression", "core", "encoding", "converted_types"]
+
+
+def translate_views(ctx):
+    """translators/views2coq.py: inventory of module-level / thread-local buffers of the reader modules and of the functions they escape
+    through, regenerated from the working tree; genproofs/GenViewsProofs.v: the inventory is empty, hence no page is decoded over the
+    dictionary read_col holds (Impl/RAlias.v)"""
+    import subprocess
+    srcs = [os.path.join(C.REPO, "fastparquet", m + ".py") for m in VIEW_MODULES]
+    p = subprocess.run([C.PY, os.path.join(C.VERIF, "translators", "views2coq.py")] + srcs, stdout=subprocess.PIPE, stderr=subprocess.PIPE)
+    if p.returncode != 0:
+        ctx.notes.append("translator_fallback: views2coq refused the source (%s); the dynamic aliasing check remains" % p.stderr.decode()[-300:].strip())
+        ctx.extra["translator_views2coq"] = "fallback"
+        return
+    txt = p.stdout.decode()
+    gen = os.path.join(ctx.gen_dir, "GenViews.v")
+    if not os.path.exists(gen) or open(gen).read() != txt:
+        open(gen, "w").write(txt)
+    ok, out = C.coqc(gen, extra_q=[(ctx.gen_dir, "PqGen")])
+    ctx.obligation("GenViews.v (inventory of long-lived buffers of the reader modules, regenerated) compiles", ok, out)
+    if ok:
+        gp = os.path.join(ctx.gen_dir, "GenViewsProofs.v")
+        shutil.copy(os.path.join(C.COQ, "genproofs", "GenViewsProofs.v"), gp)
+        ctx.coq_file(gp, extra_q=[(ctx.gen_dir, "PqGen")])
+    ctx.extra["translator_views2coq"] = "translated"
+    import re
+    ctx.extra["reader_module_buffers"] = re.findall(r'Definition module_buffers[^\[]*\[(.*?)\]\.', txt, re.S)[:1]
+
+
+def aliasing_oracle(ctx):
+    """results held across calls: what decompress_data / read_plain / read_dictionary_page returned for one page must not change when
+    the next page is decoded (every codec, sizes around 64 KiB and larger, same thread)"""
+    import numpy as np
+    C.use_shadow()
+    from fastparquet import compression, encoding
+    from fastparquet.compression import compress_data, decompress_data
+    rng = ctx.rng
+    for algo in ["SNAPPY", "GZIP", "LZ4", "ZSTD", "BROTLI", "LZ4_RAW", "UNCOMPRESSED"]:
+        for size in (1000, 65535, 65536, 65537, 200000):
+            a = np.frombuffer(bytes(rng.randrange(256) for _ in range(256)) * (size // 256 + 1), "uint8")[:size].copy()
+            b = np.frombuffer(bytes(rng.randrange(256) for _ in range(256)) * (size // 256 + 1), "uint8")[:size].copy()
+            case = {"aliasing": "decompress_data twice", "codec": algo, "size": size}
+            try:
+                ca, cb = compress_data(a.tobytes(), algo), compress_data(b.tobytes(), algo)
+                first = decompress_data(np.frombuffer(ca, "uint8"), size, algo)
+                held = encoding.read_plain(first, 2, size // 8)              # INT64 view of the page, as a dictionary would be
+                snapshot = np.array(held, copy=True)
+                second = decompress_data(np.frombuffer(cb, "uint8"), size, algo)
+                ok = bool((np.asarray(held) == snapshot).all()) and bytes(np.asarray(second).tobytes()) == b.tobytes()
+            except Exception as e:      # noqa: a codec that is not available is not an aliasing problem
+                ctx.count("aliasing_codec_unavailable", "%s: %s" % (algo, type(e).__name__))
+                continue
+            ctx.case(case)
+            if not ok:
+                ctx.fail({"component": "buffer lifetime", "codec": algo, "big": size >= 65536}, case,
+                         "the values read from a %d-byte %s page changed when the next page was decompressed" % (size, algo))
+
+
 def leaf_tag(l):
     """tag of harness/fmtgen.COLTYPES for a decoded leaf (physical, converted, logical), or None"""
     for (t, c, lg, tag) in G.COLTYPES:
@@ -542,7 +605,7 @@ def _job(job):
     tmp = tempfile.mkdtemp(prefix="verif-C03w-", dir=_SCRATCH)
     try:
         try:
-            res = run_case(lf, table, tmp, cats=bool(expect.get("categories")), kv=bool(expect.get("kv")))
+            res = run_case(lf, table, tmp, cats=bool(expect.get("categories")), kv=bool(expect.get("kv")), light=bool(expect.get("light")), pf_kwargs=expect.get("pf_kwargs"))
         except Exception:   # noqa
             import traceback
             return {"outcome": "harness-error", "err": traceback.format_exc()[-1500:], "problems": []}
@@ -733,7 +796,8 @@ def gen_jobs(ctx):
         jobs.append((lf, table, {"expect": "decode", "stream": "fixed-types"}))
     # 1. random layouts in the region the reader is supposed to support
     for _ in range(260 if quick else 14000):
-        add({"width": None, "created_by": rng.choice(["spec-encoder", "parquet-mr version 1.12.3"])})
+        add({"width": None, "created_by": rng.choice(["spec-encoder", "parquet-mr version 1.12.3", "parquet-mr", "", "impala version 2.6.0",
+                                                      "parquet-cpp version 1.5.1-SNAPSHOT", "fastparquet"])})
     # 2. every column type x v1/v2 x optional/required, one chunk, PLAIN and dictionary
     for ct in G.COLTYPES:
         for v2 in (False, True):
@@ -823,6 +887,33 @@ def gen_jobs(ctx):
                                     more = [({"b": ("x%03d" % i).encode().hex()} if lf["leaves"][0]["tag"] == "utf8" else 10 ** 12 + i) for i in range(extra)]
                                     it["vals"] = it["vals"] + [v for v in more if json.dumps(v, sort_keys=True) not in have]
                         jobs.append((lf, table, {"expect": "decode", "stream": "created-by-fastparquet-categories", "categories": True}))
+    # 6f. run-structure lattice entry "ONE RLE run covering the page" x index width 1..32 x v1/v2 x required/optional, repeated index with
+    #     high bytes set (deterministic block, identical on every run)
+    cb = G.constant_block()
+    for i, (lf, table) in enumerate(cb):
+        if not quick or i % 2 == (ctx.seed % 2) or lf["rgs"][0][0]["items"][1]["store"][2] in (9, 16, 17, 24, 25, 32) or len(lf["rgs"][0][0]["items"][0]["vals"]) > 10000:
+            jobs.append((lf, table, dict({"expect": "decode", "stream": "constant-rle-page"},
+                                         **({"light": True} if len(lf["rgs"][0][0]["items"][0]["vals"]) > 10000 else {}))))
+    # 6f'. files naming fastparquet, fastparquet's own layout (one bit-packed run of whole bytes), dictionaries larger than a signed index of
+    #     that width addresses (deterministic block)
+    for lf, table, cats in G.high_index_block():
+        jobs.append((lf, table, dict({"expect": "decode", "stream": "high-index-fastparquet"}, **({"categories": True} if cats else {}),
+                                     **({"light": True} if len(lf["rgs"][0][0]["items"][0]["vals"]) > 10000 else {}))))
+    # 6f''. reader option pandas_nulls=False: nullable integer columns come back as float64 - pages with and without NULLs in one chunk
+    #      (the null-free v2 pages take the in-place paths), small values (exact in float64), v1 / v2, PLAIN and DELTA
+    for v2 in (False, True, True):
+        for encs in (["plain", "plain", "delta"], ["plain", "delta"], ["dict", "plain", "delta"]):      # ("delta" in the list keeps the values small)
+            for _ in range(2 if quick else 12):
+                add({"coltype": rng.choice([G.COLTYPES[10], G.COLTYPES[11]]), "encs": encs, "delta_bits": 7,
+                     "ncols": 1, "nrgs": rng.choice([1, 2]), "rows": rng.choice([12, 40]), "v2": v2, "optional": True, "split": "some",
+                     "created_by": "parquet-mr version 1.12.3"}, stream="pandas-nulls-false")
+                jobs[-1][2]["pf_kwargs"] = {"pandas_nulls": False}
+    # 6g. BIG pages (>= 64 KiB uncompressed): dictionary page, then dictionary-encoded data pages (+ a PLAIN fallback page), every codec -
+    #     what a page reader returns must not alias a buffer a later page overwrites.  Model ties are skipped for these (cost), the
+    #     specification decoder still reads every file back (instance of the round trip) and the real reader is compared cell by cell
+    for i, codec in enumerate([1, 2, 4, 5, 6, 7] + ([0, 1, 2, 4, 5, 6, 7] if not quick else [])):
+        lf, table = G.big_page_file(rng, codec, v2=bool(i % 2), text=bool((i // 2) % 2 == 1), npages=2 if quick else 3)
+        jobs.append((lf, table, {"expect": "decode", "stream": "big-pages", "light": True}))
     # 7. encodings the reader does not implement must be refused
     for enc in (6, 7, 9):
         for v2 in (False, True):
@@ -1036,6 +1127,8 @@ def run(ctx):
     ctx.obligation("native code corresponds to the .pyx sources (DESIGN 4.5)", not diffs, repr(diffs[:3]))
     C.shadow()
     C.pqref()
+    translate_views(ctx)
+    aliasing_oracle(ctx)
     extraction_vs_kernel(ctx)
     convert_vs_model(ctx)
     ctx.rule = ("layout descriptions from harness/fmtgen.py encoded by the extracted spec encoder: a deterministic block (DECIMAL over FLBA widths "
@@ -1118,8 +1211,28 @@ def run(ctx):
             ctx.fail(classify(lf, res, "differs"), case, "; ".join("%s: %s" % tuple(p) for p in res["problems"])[:1500])
 
 
+def replay_aliasing(case):
+    """decompress two pages of the stored size with the stored codec; the values read from the first must survive the second"""
+    import numpy as np
+    C.use_shadow()
+    from fastparquet import encoding
+    from fastparquet.compression import compress_data, decompress_data
+    size, algo = case["size"], case["codec"]
+    a = (np.arange(size) % 251).astype("uint8")
+    b = (np.arange(size) % 241).astype("uint8")
+    first = decompress_data(np.frombuffer(compress_data(a.tobytes(), algo), "uint8"), size, algo)
+    held = encoding.read_plain(first, 2, size // 8)
+    snapshot = np.array(held, copy=True)
+    decompress_data(np.frombuffer(compress_data(b.tobytes(), algo), "uint8"), size, algo)
+    same = bool((np.asarray(held) == snapshot).all())
+    print("%s, %d bytes: values of the first page %s after the second page was decompressed" % (algo, size, "unchanged" if same else "CHANGED"))
+    return 0 if same else 1
+
+
 def replay(rep):
     warnings.filterwarnings("ignore")
+    if rep.get("kind") != "no-failing-input-found" and "aliasing" in rep.get("case", {}):
+        return replay_aliasing(rep["case"])
     if rep.get("kind") == "no-failing-input-found" or "expect" not in rep.get("case", {}):
         print(json.dumps(rep, indent=1)[:6000])
         return 1
